@@ -205,22 +205,30 @@ class TiledStridedLayoutAttr(MemRefLayoutAttr, Data[TiledStridedLayout]):
         # if everything is dynamic, default to the most right stride (row-major-like)
         max_key = (tsl.dimension() - 1, tsl.tstrides[-1].depth() - 1)
         max_value = 0
+        max_extent = (False, 0)
         for dim, depth, stride in self.data:
-            if stride.step and stride.step > max_value:
+            # the stride that reaches furthest: largest step * bound (unit-bound strides may repeat a step),
+            # a static step with a dynamic bound lies above all fully static strides
+            if stride.step and (extent := (stride.bound is None, stride.step * (stride.bound or 1))) > max_extent:
                 max_key = (dim, depth)
                 max_value = stride.step
+                max_extent = extent
         max_value = max_value * el_bytes
 
         # generate ops for the maximum
         # the max static stride multiplied by the bound of that Stride
         # can be used as a starting value for the dynamic strides
-        max_stride_op = ConstantOp.from_int_and_width(max_value, IndexType())
-        result.append(max_stride_op)
-        dynamic_step = MuliOp(
-            bound_ops[max_key],
-            max_stride_op,
-            IndexType(),
-        )
+        if max_value == 0:
+            # everything is dynamic: the most right stride is one element
+            dynamic_step = ConstantOp.from_int_and_width(el_bytes, IndexType())
+        else:
+            max_stride_op = ConstantOp.from_int_and_width(max_value, IndexType())
+            result.append(max_stride_op)
+            dynamic_step = MuliOp(
+                bound_ops[max_key],
+                max_stride_op,
+                IndexType(),
+            )
         result.append(dynamic_step)
 
         # assign strides right to left
